@@ -294,6 +294,39 @@ theorem bp8_de_morgan2 (a b : V3) :
   have e3 : bp8v_not1 (.ofV3 b) = P3.ofV3 (specNot b) := by rw [← bp8_not_spec]; rfl
   rw [e1, e2, e3, bp8_not_spec, bp8_or2_spec, de_morgan_and2]
 
+/-- De Morgan for the real bit-parallel code, three and four operands, and the dual (NOT of OR = AND of NOTs) -/
+theorem bp8_de_morgan3 (a b c : V3) :
+    (bp8v_not1 (bp8v_and3 (.ofV3 a) (.ofV3 b) (.ofV3 c))).toV3 =
+      (bp8v_or3 (bp8v_not1 (.ofV3 a)) (bp8v_not1 (.ofV3 b)) (bp8v_not1 (.ofV3 c))).toV3 := by
+  have e1 : bp8v_and3 (.ofV3 a) (.ofV3 b) (.ofV3 c) = P3.ofV3 (specAnd [a, b, c]) := by
+    rw [← bp8_and3_spec]; rfl
+  have e2 : ∀ x : V3, bp8v_not1 (.ofV3 x) = P3.ofV3 (specNot x) := fun x => by rw [← bp8_not_spec]; rfl
+  rw [e1, e2 a, e2 b, e2 c, bp8_not_spec, bp8_or3_spec, de_morgan_and3]
+
+theorem bp8_de_morgan4 (a b c d : V3) :
+    (bp8v_not1 (bp8v_and4 (.ofV3 a) (.ofV3 b) (.ofV3 c) (.ofV3 d))).toV3 =
+      (bp8v_or4 (bp8v_not1 (.ofV3 a)) (bp8v_not1 (.ofV3 b)) (bp8v_not1 (.ofV3 c)) (bp8v_not1 (.ofV3 d))).toV3 := by
+  have e1 : bp8v_and4 (.ofV3 a) (.ofV3 b) (.ofV3 c) (.ofV3 d) = P3.ofV3 (specAnd [a, b, c, d]) := by
+    rw [← bp8_and4_spec]; rfl
+  have e2 : ∀ x : V3, bp8v_not1 (.ofV3 x) = P3.ofV3 (specNot x) := fun x => by rw [← bp8_not_spec]; rfl
+  rw [e1, e2 a, e2 b, e2 c, e2 d, bp8_not_spec, bp8_or4_spec, de_morgan_and4]
+
+theorem bp8_de_morgan_dual2 (a b : V3) :
+    (bp8v_not1 (bp8v_or2 (.ofV3 a) (.ofV3 b))).toV3 =
+      (bp8v_and2 (bp8v_not1 (.ofV3 a)) (bp8v_not1 (.ofV3 b))).toV3 := by
+  have e1 : bp8v_or2 (.ofV3 a) (.ofV3 b) = P3.ofV3 (specOr [a, b]) := by
+    rw [← bp8_or2_spec]; rfl
+  have e2 : ∀ x : V3, bp8v_not1 (.ofV3 x) = P3.ofV3 (specNot x) := fun x => by rw [← bp8_not_spec]; rfl
+  rw [e1, e2 a, e2 b, bp8_not_spec, bp8_and2_spec, de_morgan_or2]
+
+theorem bp8_de_morgan_dual3 (a b c : V3) :
+    (bp8v_not1 (bp8v_or3 (.ofV3 a) (.ofV3 b) (.ofV3 c))).toV3 =
+      (bp8v_and3 (bp8v_not1 (.ofV3 a)) (bp8v_not1 (.ofV3 b)) (bp8v_not1 (.ofV3 c))).toV3 := by
+  have e1 : bp8v_or3 (.ofV3 a) (.ofV3 b) (.ofV3 c) = P3.ofV3 (specOr [a, b, c]) := by
+    rw [← bp8_or3_spec]; rfl
+  have e2 : ∀ x : V3, bp8v_not1 (.ofV3 x) = P3.ofV3 (specNot x) := fun x => by rw [← bp8_not_spec]; rfl
+  rw [e1, e2 a, e2 b, e2 c, bp8_not_spec, bp8_and3_spec, de_morgan_or3]
+
 /-! ## lane-wise: every lane count `w`, every lane `k < w` -/
 
 theorem bp8v_not_lane (w k : Nat) (hk : k < w) (a : P3 (BitVec w)) :
